@@ -30,8 +30,36 @@ EXPLANATION += ' Also decided: no parent INSERT is silently skipped (conflict cl
 FIVE = ("nameplate_sides", "nameplates", "messages", "mailbox_sides", "mailboxes")
 
 
+def _unloop(t):
+    """the term with loop identities of element terms removed, so that the same
+    condition on 'the current row' compares equal across two loops"""
+    if not isinstance(t, tuple):
+        return t
+    if t and t[0] == "elem" and len(t) == 3:
+        return ("elem", _unloop(t[1]), None)
+    return tuple(_unloop(x) for x in t)
+
+
+def _deleting_loop(loop_ev):
+    """a loop of the sweep in (or under) which channel rows are deleted"""
+    for alt in loop_ev["alts"]:
+        for x, _ in flat_events(alt["events"]):
+            if x["k"] == "sql" and x["db"] == "chan" and x["stmt"].kind == "delete":
+                return True
+    return False
+
+
 def run(ctx):
     model = ctx.model
+    shared.r_collation(ctx, "R13.exact", FIVE,
+                       "the sweep enumerates application ids / channel ids that are no "
+                       "longer the strings it stored (mixed types cannot be ordered, keyed "
+                       "deletes miss their rows)")
+    shared.r_full_loops(ctx, "R13.all", "idle channels beyond that point survive the sweep "
+                        "that should have removed them", only=_deleting_loop)
+    shared.r_convert(ctx, "R13.convert", ["timer"],
+                     "the sweep stops with ValueError at the first name it cannot convert; "
+                     "the apps after it are not swept")
     shared.r_durable(ctx, "R13.durable", ("chan",),
                      "what the sweep deleted is still in the database file (another connection, a restart)")
     ctx.rule("R13.timer", "TimerService(constant period, f) is parented to the returned "
@@ -68,6 +96,7 @@ def run(ctx):
     # R13.exh
     nexh = 0
     done = set()
+    by_rows = {}      # rows term of a SELECT FROM mailboxes -> loops over it
     for p in timer:
         for e, loops in all_events(p, ("loop",)):
             if id(e) in done or e["func"] != R.sweep_app or not e["iter"]:
@@ -77,23 +106,70 @@ def run(ctx):
             if it[0] == "rows":
                 st = interp.sql_sites.get(it[1])
                 if st is not None and st.table == "mailboxes":
-                    nexh += 1
-                    for alt in e["alts"]:
-                        adds = [x for x, _ in flat_events(alt["events"]) if x["k"] == "coll_add"]
-                        ok = len(adds) == 1 and alt["out"] == "normal"
-                        ctx.ob("R13.exh", "every mailbox row lands in exactly one set", ok, e,
-                               "" if ok else "an iteration adds the mailbox to %d sets: idle "
-                               "mailboxes can be skipped forever" % len(adds))
-                    # the select is keyed by the app only
-                    sel = None
-                    for x, _ in all_events(p, ("sql",)):
-                        if x["site"] == it[1]:
-                            sel = x
-                    eq = sel["binds"]["where_eq"] if sel else None
-                    ok = eq is not None and set(eq) == {"app_id"}
-                    ctx.ob("R13.exh", "classification reads all mailboxes of the app", ok,
-                           sel or e, "" if ok else "classification select is %s" %
-                           st.normalized())
+                    by_rows.setdefault(it, []).append((p, e))
+    for it, lps in sorted(by_rows.items(), key=lambda kv: kv[0][1]):
+        st = interp.sql_sites.get(it[1])
+        adding = []       # (loop, alt, [coll_add events]) of iterations that classify
+        for (p, e) in lps:
+            for alt in e["alts"]:
+                adds = [x for x, _ in flat_events(alt["events"]) if x["k"] == "coll_add"]
+                if adds or len(set(x["site"] for (_p, x) in lps)) == 1:
+                    adding.append((e, alt, adds))
+        if not any(adds for (_e, _a, adds) in adding):
+            continue          # loops that only report (no classification here)
+        nexh += 1
+        e0 = adding[0][0]
+        one_loop = len(set(e["site"] for (e, _a, _x) in adding)) == 1
+        if one_loop:
+            # the explicit form: every iteration of the one classifying loop
+            # puts the row in exactly one set
+            for (e, alt, adds) in adding:
+                ok = len(adds) == 1 and alt["out"] == "normal"
+                ctx.ob("R13.exh", "every mailbox row lands in exactly one set", ok, e,
+                       "" if ok else "an iteration adds the mailbox to %d sets: idle "
+                       "mailboxes can be skipped forever" % len(adds))
+        else:
+            # several passes over the same rows (filtering comprehensions): the
+            # conditions under which a pass keeps the row must be complementary
+            def lits(alt):
+                out = []
+                for (t, b, _s) in alt["pc"]:
+                    while t[0] in ("not", "truth"):
+                        if t[0] == "not":
+                            b = not b
+                        t = t[1]
+                    out.append((_unloop(t), b))
+                return out
+            conds = []
+            seen_c = set()
+            for (e, alt, adds) in adding:
+                if not adds:
+                    continue
+                k = (e["site"], tuple(lits(alt)))
+                if k in seen_c:
+                    continue
+                seen_c.add(k)
+                conds.append((lits(alt), adds))
+            ok = len(conds) == 2 and all(len(c) == 1 and len(a) == 1 for c, a in conds) and \
+                conds[0][0][0][0] == conds[1][0][0][0] and \
+                conds[0][0][0][1] != conds[1][0][0][1] and \
+                conds[0][1][0]["coll"] != conds[1][1][0]["coll"] and \
+                all(alt["out"] == "normal" for (_e, alt, _x) in adding)
+            ctx.ob("R13.exh", "every mailbox row lands in exactly one set", ok, e0,
+                   "" if ok else "the passes over the mailbox rows keep a row under "
+                   "conditions that are not complementary: some rows land in no set (idle "
+                   "mailboxes can be skipped forever) or in both")
+        # the select is keyed by the app only
+        p = lps[0][0]
+        sel = None
+        for x, _ in all_events(p, ("sql",)):
+            if x["site"] == it[1]:
+                sel = x
+        eq = sel["binds"]["where_eq"] if sel else None
+        ok = eq is not None and set(eq) == {"app_id"}
+        ctx.ob("R13.exh", "classification reads all mailboxes of the app", ok,
+               sel or e0, "" if ok else "classification select is %s" %
+               st.normalized())
     ctx.require("R13.exh", nexh, 1, "classification loops")
     # R13.cover
     ncov = 0
@@ -122,6 +198,10 @@ def run(ctx):
                        for alt in e["alts"] for x, _ in flat_events(alt["events"])):
                 continue
             napps += 1
+            if e["iter"] is None:
+                raise AnalysisError("R13.apps: the per-app sweep is driven by a while loop "
+                                    "(%s:%d) whose iteration set is not understood"
+                                    % e["site"][:2])
             it = strip_wrappers(e["iter"])
             # a set filled by loops over selects, or one comprehension over a select
             elems = None
